@@ -54,7 +54,7 @@ try:
         out['checks'] = {}
         for p in props:
             env2 = dict(os.environ, GTVERIF_REPO=wt, GTVERIF_EVIDENCE_DIR=evd)
-            c = subprocess.run(['/venv/bin/python', '-m', 'gtverif', 'check', p], cwd='/verif', env=env2, capture_output=True, text=True)
+            c = subprocess.run(['/venv/bin/python', '-m', 'gtverif', 'check', p], cwd=os.environ.get('GTVERIF_DIR', '/verif'), env=env2, capture_output=True, text=True)
             lines = [l for l in c.stdout.splitlines() if l.startswith(('VIOLATION', 'ANALYSIS-ERROR', '  reason'))]
             rules = sorted({l.split()[0] for l in c.stdout.splitlines() if l.startswith('  R-') and ' :: ' in l})
             out['checks'][p] = {'rc': c.returncode, 'rules': rules, 'lines': lines[:6]}
